@@ -8,7 +8,8 @@ from vf.gen import capsets
 ID = 'C19'
 RULE = ('random caption sets (1-3 languages, 0-7 captions, runs of identical (start,end) of every '
         'length placed at the start / middle / end, near-runs that share only the start or only the '
-        'end, integer and float times, nodes with text/break/style) x {adjust_caption_timing with skew '
+        'end, integer and float times, nodes with text/break/style), built in one go or in stages (first k '
+        'languages, observer calls, the others through set_captions) x {adjust_caption_timing with skew '
         'in (0,4] and offsets of both signs (including offsets that land inside a caption, exactly on a '
         'start, and beyond every caption), merge_concurrent_captions applied twice}. Non-trivial: the '
         'set has a run of >= 2 equal timespans or a near-run (merge), or at least one caption is dropped '
@@ -17,7 +18,8 @@ ANCHORS = ['pycaption.base:CaptionSet.adjust_caption_timing',
            'pycaption.base:merge_concurrent_captions', 'pycaption.base:merge']
 REQUIRE = {'adjust_dropped_some': 5, 'adjust_dropped_all': 1, 'merge_runs': 10,
            'merge_near_runs': 5, 'merge_run_at_start': 2, 'merge_run_at_end': 2,
-           'captions_without_visible_text': 50, 'captions_ending_with_break': 50}
+           'captions_without_visible_text': 50, 'captions_ending_with_break': 50,
+           'sets_observed_before_a_language_was_added': 50}
 
 SKEWS = [1, 1.0, 0.5, 2, 4, 0.25, 1.5, 1.001, 0.999, 1.1, 3.999, 0.04]
 
@@ -85,8 +87,13 @@ def cases(ctx):
     rng = ctx.rng('c19')
     for i in range(ctx.budget(12000, 400000)):
         spec = gen_set(rng, f'S{ctx.shard}.{i}')
+        build = None
+        if len(spec['langs']) > 1 and rng.random() < 0.4:
+            # the set is assembled in stages through its public interface, with observer calls in between
+            build = {'initial': rng.randrange(0, len(spec['langs'])),
+                     'probes': rng.sample(PROBES, rng.randrange(0, 3))}
         if rng.random() < 0.5:
-            yield {'op': 'merge', 'set': spec}
+            yield {'op': 'merge', 'set': spec, 'build': build}
         else:
             skew = rng.choice(SKEWS)
             starts = [c['start'] for l in spec['langs'] for c in l['captions']]
@@ -109,7 +116,43 @@ def cases(ctx):
                     offset = -((starts[k] + ends[k]) // 2) * skew
             else:
                 offset = -(max(ends) * skew) - rng.choice([1, 1000, 10 ** 6])
-            yield {'op': 'adjust', 'set': spec, 'skew': skew, 'offset': offset}
+            yield {'op': 'adjust', 'set': spec, 'skew': skew, 'offset': offset, 'build': build}
+
+
+PROBES = ['get_languages', 'is_empty', 'adjust_identity', 'merge_if_merge', 'get_captions', 'write_dfxp']
+
+
+def build_set(case, ctx):
+    """The caption set of the case; with case['build'] it starts with the first k languages, is observed
+    through the public interface, and gets the other languages through set_captions()."""
+    from pycaption.base import CaptionSet, merge_concurrent_captions
+    full = dump.mk_caption_set(case['set'])
+    b = case.get('build')
+    if not b:
+        return full
+    langs = [l['lang'] for l in case['set']['langs']]
+    cs = CaptionSet({k: full.get_captions(k) for k in langs[:b['initial']]}, layout_info=full.layout_info)
+    for p in b['probes']:
+        if p == 'get_languages':
+            cs.get_languages()
+        elif p == 'is_empty':
+            cs.is_empty()
+        elif p == 'adjust_identity':
+            cs.adjust_caption_timing(offset=0, rate_skew=1)
+        elif p == 'merge_if_merge' and case['op'] == 'merge':
+            merge_concurrent_captions(cs)
+        elif p == 'get_captions':
+            for k in cs.get_languages():
+                cs.get_captions(k)
+        elif p == 'write_dfxp' and not cs.is_empty():
+            from pycaption import DFXPWriter
+            DFXPWriter().write(cs)
+    for k in langs[b['initial']:]:
+        cs.set_captions(k, full.get_captions(k))
+    ctx.count('sets_built_in_stages')
+    if b['probes']:
+        ctx.count('sets_observed_before_a_language_was_added')
+    return cs
 
 
 def _runs(caps):
@@ -156,7 +199,7 @@ def check(case, ctx):
                 ctx.count('captions_without_visible_text')
             if c['nodes'][-1][0] == 'b':
                 ctx.count('captions_ending_with_break')
-    cs = dump.mk_caption_set(spec)
+    cs = build_set(case, ctx)
     fails = []
     if case['op'] == 'adjust':
         sk, off = Fraction(case['skew']), Fraction(case['offset'])
